@@ -12,7 +12,7 @@ from ..result import Result
 
 ID = "C10"
 TOLERANCES = {"faces": "bitwise (face form) / 4 ulp of L ((N,L) form)", "centres/sizes": "4 ulp of the coordinate scale",
-              "cell volume": 1e-12}
+              "cell volume": 1e-12, "labels": "object identity"}
 RULE = ("Generated: 9 classes x constructor form {face arrays, (N..,L..)} x N in 1..6 (occasionally 40) per axis x strictly "
         "increasing faces with width ratios up to 1e4, partial / full angular ranges, radial origin 0 or offset, polar-angle "
         "faces touching 0 and pi.  Oracle = closed-form geometry per cell.  Non-trivial = face form with non-uniform faces and "
@@ -163,4 +163,34 @@ def check(case):
             except AttributeError:
                 if L in lab:
                     res.fail(f"label:{name}", f"{obj_name}.{L} on {name} raised AttributeError but is documented")
+    # vector components: reachable (read and whole-array assignment) under exactly the documented component labels
+    from ..common import face_shapes
+    comps = [np.full(sh, i + 1.0) for i, sh in enumerate(face_shapes(dims))]
+    while len(comps) < 3:
+        comps.append(np.array([]))
+    fv = pf.FaceVariable(m, *comps)
+    slots = ['_xvalue', '_yvalue', '_zvalue']
+    for L in ALL_LABELS:
+        labv = L + 'value'
+        if L in lab:
+            ax = lab[L]
+            try:
+                if getattr(fv, labv) is not getattr(fv, slots[ax]):
+                    res.fail(f"component-label:{name}", f"FaceVariable.{labv} on {name} does not return component {ax}")
+                newv = np.asarray(getattr(fv, slots[ax]), float) + 10.0
+                before = [getattr(fv, sl) for sl in slots]
+                setattr(fv, labv, newv)
+                after = [getattr(fv, sl) for sl in slots]
+                if after[ax] is not newv or getattr(fv, labv) is not newv or any(after[i] is not before[i] for i in range(3) if i != ax):
+                    res.fail(f"component-label-set:{name}", f"FaceVariable.{labv} = array on {name}: the assigned array is not what the label (and only the "
+                             f"label's component {ax}) holds afterwards")
+            except AttributeError:
+                res.fail(f"component-label:{name}", f"FaceVariable.{labv} on {name} raised AttributeError but is documented")
+        else:
+            for op in ('get', 'set'):
+                try:
+                    getattr(fv, labv) if op == 'get' else setattr(fv, labv, np.zeros(1))
+                    res.fail(f"component-label:{name}", f"FaceVariable.{labv} ({op}) on {name} is foreign to the grid's coordinate system but did not raise")
+                except AttributeError:
+                    pass
     return res
